@@ -383,7 +383,7 @@ func c05HasCall(e *cx) bool {
 	return false
 }
 
-// callbacks: r(x) returns x; g(x, a...) (filter) returns x; t(x, a...) (test) returns whether x is truthy-number > 0;
+// callbacks: r(x) returns x; g(x, a...) (filter) returns x; t(x, a...) (test) returns whether x's string form is neither empty nor "0";
 // j joins an array; every call is logged with its evaluated arguments.
 func (r *c05Ref) callback(name string, args []rv) rv {
 	var parts []string
@@ -398,7 +398,11 @@ func (r *c05Ref) callback(name string, args []rv) rv {
 		}
 		return args[0]
 	case "t":
-		return rBool(len(args) > 0 && args[0].k == vNum && args[0].n > 0)
+		if len(args) == 0 || args[0].k == vArr || args[0].k == vHash {
+			return rBool(false)
+		}
+		sf := args[0].str()
+		return rBool(sf != "" && sf != "0")
 	case "j":
 		if len(args) == 0 || args[0].k != vArr {
 			bail("join-non-array")
@@ -618,7 +622,8 @@ func c05Env(log *[]string) *stick.Env {
 	}
 	env.Tests["t"] = func(ctx stick.Context, val stick.Value, args ...stick.Value) bool {
 		record("t", append([]stick.Value{val}, args...))
-		return stick.CoerceNumber(val) > 0 && !stick.IsIterable(val)
+		sf := stick.CoerceString(val)
+		return sf != "" && sf != "0" && (val == nil || !stick.IsIterable(val))
 	}
 	return env
 }
@@ -815,6 +820,13 @@ func c05Levels(tier string) []core.Level {
 				emit(core.Case{Fam: "term", N: []int{8, 0, i, 0, 0}})             // x[0]
 				emit(core.Case{Fam: "term", N: []int{7, 0, i}})                   // x.k
 				emit(core.Case{Fam: "term", N: []int{13, 3, 0, 18, 0, i, 0, 22}}) // "a#{x}b"
+				// a string consisting of exactly one interpolation is still a string: type-sensitive consumers
+				emit(core.Case{Fam: "term", N: []int{10, 13, 1, 0, i, 0}})                    // "#{x}"|g
+				emit(core.Case{Fam: "term", N: []int{9, 1, 13, 1, 0, i}})                     // r("#{x}")
+				emit(core.Case{Fam: "term", N: []int{11, 13, 1, 0, i, 0}})                    // "#{x}" is t
+				emit(core.Case{Fam: "term", N: []int{3, 13, 1, 0, i, 0, 2, 0, 4}})            // "#{x}" ? 1 : 2
+				emit(core.Case{Fam: "term", N: []int{1, 8, 13, 1, 0, i, 13, 1, 0, i}})        // "#{x}" == "#{x}"
+				emit(core.Case{Fam: "term", N: []int{10, 13, 2, 0, i, 0, i, 1, 13, 1, 0, i}}) // "#{x}#{x}"|g("#{x}")
 			}
 		}},
 		{Name: "every binary operator (25) over every pair of operands (40 x 40)", Gen: func(emit func(core.Case)) {
